@@ -11,7 +11,9 @@ KNOWN_OIDS = (OID_PAGED, OID_DELETED, OID_DEACT)
 
 TEXTS = ["", "a", "cn", "dc=example,dc=com", "objectClass", "é", "日本語", "\U0001f600", "a" * 127, "b" * 128, "c" * 300,
          "x\x00y", " lead", "trail ", "(paren)", "a*b\\c", "1.2.840.113556.1.4.319x"]
-ATTRS = ["cn", "objectClass", "sAMAccountName", "1.2.3", "2.5.4.3", "cn;lang-en", "0.9.2342.19200300.100.1.1;x-opt;y-2", "a-b"]
+ATTRS = ["cn", "objectClass", "sAMAccountName", "1.2.3", "2.5.4.3", "cn;lang-en", "0.9.2342.19200300.100.1.1;x-opt;y-2", "a-b",
+         # the same descriptions in other letter cases (all within one process: what is remembered about one spelling must not show in another)
+         "CN", "Cn", "objectclass", "OBJECTCLASS", "samaccountname", "cn;LANG-EN", "CN;lang-en", "A-B"]
 OIDS = ["1.2.3", "1.3.6.1.4.1.1466.20037", "1.3.6.1.4.1.1466.20036", "2.16.840.1.113730.3.4.2", "1.2.3.4.5.6"]
 
 
